@@ -80,6 +80,10 @@ _KINDS = [("\u00a9", _re.compile(r"\([cC]\)")), ("\u00ae", _re.compile(r"\([rR]\
           ("\u00b1", _re.compile(r"\+-")), ("\u2026", _re.compile(r"\.{2,}")), ("\u2013\u2014", _re.compile(r"--"))]
 
 
+_LOSSES = [("!?", _re.compile(r"[!?]{4,}"), 3), (",", _re.compile(r",{2,}"), 1), (".", _re.compile(r"\.{2,}"), 0),
+           ("-", _re.compile(r"-{2,}|\+-"), 0), ("+", _re.compile(r"\+-"), 1)]
+
+
 def record(job):
     preset, mode, quotes, doc = job
     kon, koff = cfgs_for(preset, mode, quotes)
@@ -110,6 +114,10 @@ def record(job):
     if mode != "sq":
         for sign, pat in _KINDS:
             rw.append([sum(ton.count(c) for c in sign) - sum(toff.count(c) for c in sign), len(pat.findall(lit))])
+        # ... and the characters it REMOVES cannot outnumber what the literal trigger runs may lose
+        for chars, pat, keep in _LOSSES:
+            lost = sum(toff.count(c) for c in chars) - sum(ton.count(c) for c in chars)
+            rw.append([lost, sum(max(0, len(m) - keep) for m in pat.findall(lit))])
     q = mon.options["quotes"]
     return {"rw": rw, "sq": 0 if mode == "rp" else 1, "rp": 0 if mode == "sq" else 1, "q": [C.cps(q[x]) for x in range(4)],
             "toks": toks, "non": len(fon) if len(fon) == len(foff) else -1}, sum(1 for a, b in zip(foff, fon) if a[3] != b[3])
